@@ -35,11 +35,13 @@ def handle_c10(req):
         case = {"train": req["train"], "max_k": req["max_k"], "min_k": req["min_k"]}
         A = c10.make(req["kind"], req["metric"], case, req["path"])
         D = np.array(req["D"], dtype=np.float64).reshape(len(req["D"]), -1)
+        if req.get("dtype", "float64") != "float64":
+            D = D.astype(req["dtype"])
         Y = np.array(req["Y"], dtype=np.int64)
         tr, un, te = req["train"], req["unl"], req["test"]
         stage = "fit"
         if req["kind"] == "semi":
-            Xun = D[un] if un else np.zeros((0, D.shape[1]))
+            Xun = D[un] if un else np.zeros((0, D.shape[1]), dtype=D.dtype)
             A.fit(D[tr], Y[tr], Xun, np.array(tr, dtype=np.int64))
         else:
             A.fit(D[tr], Y[tr], np.array(tr, dtype=np.int64))
